@@ -105,6 +105,16 @@ def main(argv):
         for f in concurrent.futures.as_completed(futs):
             results[futs[f]['group']] = f.result()
 
+    # ---- thorough tier: the same groups under two further solver seeds (verdict stability; recorded, never changes the exit code) --
+    stability = {}
+    if tier == 'thorough':
+        todo = [(g['group'], s) for g in groups for s in (3, 11) if results[g['group']].get('status') != 'undecided']
+        with concurrent.futures.ThreadPoolExecutor(max_workers=4) as ex:
+            futs = {ex.submit(vverus.verdict_under_seed, grp, s): (grp, s) for (grp, s) in todo}
+            for f in concurrent.futures.as_completed(futs):
+                grp, s = futs[f]
+                stability.setdefault(grp, {})[str(s)] = f.result()
+
     # ---- Kani units ----------------------------------------------------------------------
     kani_results = []
     kunits = [k for k in cfg.get('kani', []) if tier == 'thorough' or k.get('tier', 'quick') == 'quick']
@@ -178,7 +188,12 @@ def main(argv):
             obligations += extra
             spec_fail = len([e for e in r['errors'] if e.get('unit') is None])
             discharged += max(0, extra - spec_fail)
-        backends.append({'backend': 'verus/z3', 'group': r['group'], 'wall_s': r.get('wall_s'), 'smt_ms': r.get('smt_ms'), 'verified_fns': r.get('verified_fns'), 'error_fns': r.get('error_fns'), 'version': r.get('verus_version')})
+        be = {'backend': 'verus/z3', 'group': r['group'], 'wall_s': r.get('wall_s'), 'smt_ms': r.get('smt_ms'), 'verified_fns': r.get('verified_fns'), 'error_fns': r.get('error_fns'), 'version': r.get('verus_version')}
+        if r['group'] in stability:
+            st = stability[r['group']]
+            be['other_seeds'] = {k: ({'verified_fns': v[0], 'error_fns': v[1]} if v else None) for k, v in st.items()}
+            be['verdict_independent_of_seed'] = all(v is not None and v == (r.get('verified_fns'), r.get('error_fns')) for v in st.values())
+        backends.append(be)
     for kr in kani_results:
         backends.append({'backend': kr['backend'], 'unit': kr['unit'], 'wall_s': kr.get('wall_s'), 'checks': kr.get('checks'), 'failed_checks': kr.get('failed')})
         if kr['status'] == 'undecided':
